@@ -345,19 +345,19 @@ def read(fr: dict) -> dict:
         if len(d) == 0:
             return {"kind": "group_status_request"}
         if len(d) % 6:
-            return {"kind": UNDEF, "why": "group status length"}
+            return {"kind": UNDEF, "why": "group status length", "partial_record": True, "stride": 6, "nbytes": len(d)}
         return {"kind": "group_status", "groups": [dec_group_status_record(d[i : i + 6]) for i in range(0, len(d), 6)]}
     if t == T_AC_STATUS:
         if len(d) == 0:
             return {"kind": "ac_status_request"}
         if len(d) % 8:
-            return {"kind": UNDEF, "why": "ac status length"}
+            return {"kind": UNDEF, "why": "ac status length", "partial_record": True, "stride": 8, "nbytes": len(d)}
         return {"kind": "ac_status", "acs": [dec_ac_status_record(d[i : i + 8]) for i in range(0, len(d), 8)]}
     if t in (T_TIMER_STATUS, T_TIMER_CTRL):
         if len(d) == 0:
             return {"kind": "timer_status_request" if t == T_TIMER_STATUS else UNDEF}
         if len(d) % 8:
-            return {"kind": UNDEF, "why": "timer length"}
+            return {"kind": UNDEF, "why": "timer length", "partial_record": True, "stride": 8, "nbytes": len(d)}
         return {"kind": "timer_status" if t == T_TIMER_STATUS else "timer_control", "timers": dec_timer_records(d)}
     if t == T_EXT:
         if len(d) < 2:
